@@ -115,6 +115,8 @@ class TraceGen:
             # (the caller names an instance pin either by the instance's own pin object or by a stand-in built from
             # (instance, inner pin), which compares equal to it)
             return ih and ph and {"k": "proxy" if r.random() < 0.35 else "stored", "i": ih, "p": ph}
+        def ref_key(p):
+            return (hd(p),) if kind_of(p) == "ipin" else (hd(p.instance), hd(p.inner_pin))
         defs = [d for lib in n.libraries for d in lib.definitions]
         r.shuffle(defs)
         for d in defs[:12]:
@@ -145,6 +147,14 @@ class TraceGen:
                     return [{"op": "connect_pin", "on": hd(r.choice(wires)), "pin": b}]
             elif used:
                 wr = r.choice(used)
+                if r.random() < 0.4:
+                    # the bulk call: some of the net's pins (instance pins named by their own object or by a stand-in)
+                    # come off in one call, handed over as a list or as a set
+                    pins = sorted(wr.pins, key=lambda q: repr(ref_key(q)))
+                    xs = [ref(q) for q in r.sample(pins, r.randint(1, min(3, len(pins))))]
+                    if all(xs):
+                        return [{"op": "disconnect_pins_from", "on": hd(wr), "pins": xs,
+                                 "as_set": r.choice([False, False, True])}]
                 a = ref(r.choice(list(wr.pins)))
                 if a:
                     return [{"op": "disconnect_pin", "on": hd(wr), "pin": a}]
